@@ -53,6 +53,7 @@ type DB struct {
 	}
 
 	dirtyPageSet map[uint32]struct{}
+	journalInWAL bool // true while a rollback journal transaction runs on a WAL-mode database
 
 	wal struct {
 		offset           int64                     // offset of the start of the transaction
@@ -1138,7 +1139,7 @@ func (db *DB) WriteDatabaseAt(ctx context.Context, f *os.File, data []byte, offs
 	// necessary with the write-ahead log (WAL) since pages are appended
 	// instead of overwritten. We can determine the dirty set at commit-time.
 	pgno := uint32(offset/int64(db.pageSize)) + 1
-	if db.Mode() == DBModeRollback {
+	if db.Mode() == DBModeRollback || db.journalInWAL {
 		db.dirtyPageSet[pgno] = struct{}{}
 	}
 
@@ -1288,6 +1289,15 @@ func (db *DB) WriteJournalAt(ctx context.Context, f *os.File, data []byte, offse
 		if pageSize := binary.BigEndian.Uint32(data[24:]); pageSize != 0 || db.pageSize == 0 {
 			db.pageSize = pageSize
 		}
+	}
+
+	// A journal header written while the database is in WAL mode means SQLite
+	// is switching it back to a rollback journal mode. Dirty pages are not
+	// tracked in WAL mode so start tracking them for this transaction.
+	if offset == 0 && len(data) >= SQLITE_JOURNAL_HEADER_SIZE && db.Mode() == DBModeWAL &&
+		!db.journalInWAL && !isByteSliceZero(data[:SQLITE_JOURNAL_HEADER_SIZE]) {
+		db.journalInWAL = true
+		db.dirtyPageSet = make(map[uint32]struct{})
 	}
 
 	dbJournalWriteCountMetricVec.WithLabelValues(db.name).Inc()
@@ -2422,6 +2432,7 @@ func (db *DB) invalidateJournal(mode JournalMode) error {
 	}
 
 	db.dirtyPageSet = make(map[uint32]struct{})
+	db.journalInWAL = false
 
 	return nil
 }
